@@ -309,7 +309,10 @@ func runC17(c *Ctx) {
 			if f == nil {
 				return out
 			}
-			if v := paramObj(f, "r"); v != nil {
+			if v := paramByType(f, func(t types.Type) bool {
+				n := core.ObjNameOfType(t)
+				return n == "api.ChatResponse" || n == "api.GenerateResponse"
+			}); v != nil {
 				fieldsRead(c, "openai", f, v, 2, out)
 			}
 			return out
